@@ -20,6 +20,17 @@ def BS.advanceOnSuccess (s : BS) (n : Nat) : Option BS :=
   let s' : BS := { s with instances := n }
   if s'.index ≥ n then s'.advance else some s'
 
+/-- the requests of one granularity when every candidate is rejected, as `(counter, to-counter)` pairs: follow `advance` until it
+    wraps (index 0 again) or ends -/
+def BS.level (s : BS) : Nat → List (Nat × Nat)
+  | 0 => []
+  | fuel + 1 => (s.index + 1, s.end_) :: (match s.advance with
+      | some t => if t.index = 0 then [] else BS.level t fuel
+      | none => [])
+
+/-- the instances a request names, in order -/
+def BS.expand (r : Nat × Nat) : List Nat := List.range' r.1 (r.2 + 1 - r.1)
+
 def BS.Inv (s : BS) : Prop := s.index < s.instances ∧ 1 ≤ s.chunk
 
 /-! arithmetic facts about the cursor, independent of any list -/
